@@ -6,6 +6,8 @@
 //   scriptfull ...        same, the result is printed untruncated
 //   names                 names of the variables and biases the module holds
 //   oncallback w1\x1f..   queue a script command that is run inside the scripted-forces callback of every later step
+//   objresults            the in-place (`obj`) variants of colvarscript::set_result_* vs the string result
+//   semdump               the numbers the module / proxy hold now (SEMMOD / SEMCV / SEMBIAS lines, hex)
 //   writefile F text      write text ('\x1e' = newline) to file F
 //   gradgroups <cv>       what colvar::collect_cvc_gradients() is about to attribute: for every active component, every atom group
 //                         (then its fitting group) the pairs (atom id, contribution) in LISTING order, and the arrays
@@ -160,6 +162,80 @@ struct c20_session : public vsim_session {
         }
       }
       o << "\n";
+      return true;
+    }
+    if (cmd == "objresults") {
+      // the `obj` (in-place) variants of colvarscript::set_result_*: same characters as the string result?
+      colvarscript *script = proxy->script;
+      char buf[512];
+      std::vector<int> vi; vi.push_back(3); vi.push_back(-1); vi.push_back(20);
+      std::vector<long int> vl; vl.push_back(1234567890123L); vl.push_back(-5);
+      std::vector<cvm::real> vr; vr.push_back(0.1); vr.push_back(-2.5e-7); vr.push_back(1e300);
+      std::vector<cvm::rvector> vv; vv.push_back(cvm::rvector(0.1, 0.2, 0.3)); vv.push_back(cvm::rvector(-1, 1e-9, 3e8));
+      colvarvalue cvs(0.123456789012345678);
+      colvarvalue cvv(cvm::rvector(1.5, -2.5, 1.0 / 3.0), colvarvalue::type_3vector);
+      std::vector<colvarvalue> vcv; vcv.push_back(cvs); vcv.push_back(colvarvalue(2.0));
+      for (int t = 0; t < 11; t++) {
+        std::memset(buf, '#', sizeof(buf)); buf[sizeof(buf) - 1] = 0;
+        unsigned char *ob = reinterpret_cast<unsigned char *>(buf);
+        cvm::clear_error();
+        script->clear_str_result();
+        char const *nm = "";
+        #define BOTH(NAME, CALL_OBJ, CALL_STR) { nm = NAME; CALL_OBJ; std::string inplace(buf, std::find(buf, buf + sizeof(buf) - 1, '#')); \
+          bool nul = false; size_t L = inplace.size(); if (L && inplace[L - 1] == 0) { nul = true; inplace.erase(L - 1); } \
+          std::string after_obj = script->str_result(); script->clear_str_result(); CALL_STR; \
+          o << "OBJ " << nm << " same=" << (inplace == script->str_result() ? 1 : 0) << " terminated=" << (nul ? 1 : 0) \
+            << " strleft=" << after_obj.size() << " text=" << script->str_result() << "\n"; }
+        switch (t) {
+        case 0: BOTH("int", script->set_result_int(42, ob), script->set_result_int(42)); break;
+        case 1: BOTH("int_vec", script->set_result_int_vec(vi, ob), script->set_result_int_vec(vi)); break;
+        case 2: BOTH("long_int", script->set_result_long_int(-9876543210L, ob), script->set_result_long_int(-9876543210L)); break;
+        case 3: BOTH("long_int_vec", script->set_result_long_int_vec(vl, ob), script->set_result_long_int_vec(vl)); break;
+        case 4: BOTH("real", script->set_result_real(0.1, ob), script->set_result_real(0.1)); break;
+        case 5: BOTH("real_vec", script->set_result_real_vec(vr, ob), script->set_result_real_vec(vr)); break;
+        case 6: BOTH("rvector", script->set_result_rvector(vv[1], ob), script->set_result_rvector(vv[1])); break;
+        case 7: BOTH("rvector_vec", script->set_result_rvector_vec(vv, ob), script->set_result_rvector_vec(vv)); break;
+        case 8: BOTH("colvarvalue", script->set_result_colvarvalue(cvs, ob), script->set_result_colvarvalue(cvs)); break;
+        case 9: BOTH("colvarvalue3", script->set_result_colvarvalue(cvv, ob), script->set_result_colvarvalue(cvv)); break;
+        case 10: BOTH("colvarvalue_vec", script->set_result_colvarvalue_vec(vcv, ob), script->set_result_colvarvalue_vec(vcv)); break;
+        }
+        #undef BOTH
+      }
+      script->clear_str_result();
+      return true;
+    }
+    if (cmd == "semdump") {
+      // the numbers the module and the proxy hold right now, in hex: the observation that the semantic model is fed with
+      colvarmodule *cv = proxy->colvars;
+      o << "SEMMOD " << cvm::step_absolute() << " " << vs_hex(proxy->bias_energy) << " |";
+      size_t const n = proxy->get_atom_ids()->size();
+      for (size_t i = 0; i < n; i++) o << " " << (*proxy->get_atom_ids())[i];
+      o << " |";
+      for (size_t i = 0; i < n; i++) o << " " << vs_hex((*proxy->get_atom_masses())[i]);
+      o << " |";
+      for (size_t i = 0; i < n; i++) o << " " << vs_hex((*proxy->get_atom_charges())[i]);
+      std::vector<cvm::rvector> const *arrs[3] = { proxy->get_atom_positions(), proxy->get_atom_applied_forces(), proxy->get_atom_total_forces() };
+      for (int k = 0; k < 3; k++) {
+        o << " |";
+        for (size_t i = 0; i < n; i++) o << " " << vs_hex((*arrs[k])[i].x) << " " << vs_hex((*arrs[k])[i].y) << " " << vs_hex((*arrs[k])[i].z);
+      }
+      o << "\n";
+      for (colvar *c : *(cv->variables())) {
+        if (c->value().type() != colvarvalue::type_scalar) continue;
+        o << "SEMCV " << c->name << " " << vs_hex(c->value().real_value) << " " << vs_hex(c->applied_force().real_value) << " "
+          << vs_hex(c->total_force().real_value) << " " << (c->is_enabled(colvardeps::f_cv_active) ? 1 : 0) << " |";
+        std::vector<int> ids;
+        std::vector<std::vector<int> > lists = c->get_atom_lists();
+        for (auto &l : lists) for (int id : l) ids.push_back(id);
+        std::sort(ids.begin(), ids.end());
+        ids.erase(std::unique(ids.begin(), ids.end()), ids.end());
+        for (int id : ids) o << " " << id;
+        o << " |";
+        for (auto const &g : c->atomic_gradients) o << " " << vs_hex(g.x) << " " << vs_hex(g.y) << " " << vs_hex(g.z);
+        o << "\n";
+      }
+      for (colvarbias *b : cv->biases) o << "SEMBIAS " << b->name << " " << vs_hex(b->get_energy()) << "\n";
+      o << "SEMEND\n";
       return true;
     }
     if (cmd == "writefile") {
